@@ -1423,14 +1423,20 @@ mod e2e {
 // ------------------------------------------------------------------ e2e through the prost path, with options
 /// fixture generated by build.rs: fixture/demo.proto through configure()..compile_fds,
 /// once with default options, once with disable_package_emission + use_arc_self + default stubs
+#[cfg(feature = "fixture")]
 #[allow(non_camel_case_types, dead_code, clippy::all)]
 mod fx_default {
     include!(concat!(env!("OUT_DIR"), "/fx_default/demo.v1.rs"));
 }
+#[cfg(feature = "fixture")]
 #[allow(non_camel_case_types, dead_code, clippy::all)]
 mod fx_opts {
     include!(concat!(env!("OUT_DIR"), "/fx_opts/demo.v1.rs"));
 }
+// The compiled fixture is behind the (default) feature `fixture`: when a change of the generator
+// makes the generated code stop fitting the hand-written implementation below, ./check rebuilds
+// this harness without it so that the token-level cases still run and name a failing input.
+#[cfg(feature = "fixture")]
 mod e2e_prost {
     use super::*;
     use std::sync::Arc;
@@ -1735,7 +1741,10 @@ fn main() {
         }
     }
     e2e::run(&mut ctx, &mut r, if a.thorough { 40 } else { 6 });
+    #[cfg(feature = "fixture")]
     e2e_prost::run(&mut ctx, &mut r, if a.thorough { 40 } else { 8 });
+    #[cfg(not(feature = "fixture"))]
+    ctx.out.push(Case { kind: "e2e.prost".into(), input: json!({"fixture": "fixture/demo.proto, default options and no-package + Arc<Self> + default stubs"}), model: "Nd []".into(), impl_obs: Tr::L(vec![]), oracle: Some("the code generated for the e2e fixture no longer compiles against an implementation of its service trait written for the unchanged generator (method signatures / associated types changed)".into()), nontrivial: true });
 
     // ---- generated ----
     let (n_tok, n_bad, n_man, n_prost, n_protos) = if a.thorough { (6000, 1500, 800, 900, 240) } else { (600, 200, 100, 120, 30) };
